@@ -22,6 +22,10 @@ func dispatch(cmd string, args []string) int {
 		return cmdList(args)
 	case "C08":
 		return cmdSigs(args)
+	case "C03":
+		return cmdCrash(args)
+	case "C03child":
+		return cmdCrashChild(args)
 	default:
 		fmt.Println("unknown command", cmd)
 		return 2
